@@ -13,7 +13,9 @@ var profile = envh.Profile{MaxHooks: 8, MaxReqs: 12, FailP: 80, BodyFailP: 120, 
 	TeardownP: 60, ControlP: 300, RunFocus: true}
 
 const rule = "random walks of 1..12 requests steered through DEPLOY/CONFIGURE/START/STOP cycles (failing hooks, failing bodies, failing run-number " +
-	"acquisition, API fallback to GO_ERROR, teardown while running) over 0..8 hooks placed mostly at run-related moments; non-trivial = at least one run " +
+	"acquisition, API fallback to GO_ERROR, teardown while running) over 0..8 hooks placed mostly at run-related moments; every fifth case a teardown class " +
+	"(teardown from every state, half of them from RUNNING, with 1..4 call/task hooks at leave_<state> critical or not, failing or not, at weights of both signs, " +
+	"call hooks at DESTROY/after_DESTROY, calls still pending, forced or not, release rounds failing or not, then 0..2 further requests); non-trivial = at least one run " +
 	"number was handed out and >=3 requests; distinct by input text"
 
 func nontrivial(input, obs string) bool {
